@@ -6,7 +6,9 @@
 //!   tde_stream <enc> <ty> <rtokens> <hex> <cap> <sched> <expect>
 //!   x-tde_stream …   same, for inputs where the token-level stream model is not applicable
 //!                    (byte-level skip_container / read_expect_equals differ from token-level reading)
-//!   x-derive <enc> <hex>            real derived structs against TySeed on the same input
+//!   spec_doc <enc> <ty> <doc> <hex> the Lean SPEC on the abstract document (valueOf | lexemes | tapeOf) against the
+//!                                   real deserializer / reader / tape parser on its canonical rendering <hex>
+//!   x-derive <which> <enc> <hex>    real derived structs against TySeed on the same input
 //!   x-probe <kind> <enc> <ty> <hex> known divergences, observed and counted
 //! enc = w1252 | utf8.  <tape> = show::text_tape of the REAL tape of <hex>; <rtokens> = the REAL
 //! TokenReader::from_slice tokens of <hex> (show::text_lex_tok, plus a final `Err` when the lexer failed).
@@ -499,6 +501,34 @@ fn gen_dup_doc(rng: &mut Rng) -> Vec<u8> {
 
 // ---------------------------------------------------------------------------------------
 
+/// abstract document in the syntax the Lean driver parses (`Spec/TextDoc.lean`): no header values,
+/// unquoted keys.  node := u<hex> | q<hex> | o[field;..] | a[node;..]   field := <keyhex>~<op>~node
+fn ser_node(n: &Node) -> Option<String> {
+    match n {
+        Node::Leaf(l) => Some(match l { Leaf::Quo(b) => format!("q{}", hex(b)), other => format!("u{}", hex(&leaf_text(other).0)) }),
+        Node::Obj(fs) if !fs.is_empty() => Some(format!("o[{}]", ser_fields(fs)?)),
+        Node::Arr(vs) => Some(format!("a[{}]", vs.iter().map(ser_node).collect::<Option<Vec<_>>>()?.join(";"))),
+        _ => None,
+    }
+}
+fn ser_fields(fs: &[Field]) -> Option<String> {
+    let mut out = vec![];
+    for f in fs {
+        if f.ghosts > 0 || f.implicit_eq || matches!(f.key, Leaf::Quo(_)) { return None; }
+        out.push(format!("{}~{}~{}", hex(&leaf_text(&f.key).0), f.op.name(), ser_node(&f.val)?));
+    }
+    Some(out.join(";"))
+}
+
+fn emit_spec(g: &mut Gen, enc: Enc, ty: &Ty, doc: &Doc, expect: Option<&str>) {
+    if expect.is_none() { return; }
+    if let Some(d) = ser_fields(&doc.fields) {
+        let data = render_canonical(&lexemes(doc));
+        g.count("spec-doc");
+        g.emit(format!("spec_doc {} {} d[{}] {}", enc.name(), show_ty(ty), d, hex(&data)));
+    }
+}
+
 fn parse_enc_ty(enc: &str, ty: &str) -> Option<(Enc, Ty)> { Some((Enc::parse(enc)?, parse_ty(ty)?)) }
 
 fn count_val(obs: &mut Obs, path: &str, v: &str) {
@@ -560,6 +590,18 @@ pub fn exec(w: &[&str], obs: &mut Obs) -> Option<String> {
                 if s != r { violation(obs, "paths-disagree", format!("reader {} tape {}", r, s)); }
             }
             Some(r)
+        }
+        ["spec_doc", enc, ty, _doc, h] => {
+            // the Lean SPEC (valueOf / lexemes / tapeOf of the abstract document) against the real
+            // deserializer, reader and tape parser on the canonical rendering of that document
+            let (enc, ty) = parse_enc_ty(enc, ty)?;
+            let data = unhex(h)?;
+            let tape = match TextTape::from_slice(&data) { Ok(t) => t, Err(_) => return Some("err:parse".into()) };
+            let r = run_tape(enc, &ty, &tape);
+            let (x, _) = run_reader(enc, &ty, TokenReader::from_slice(&data));
+            if x != r { obs.violation("paths-disagree", &case(), &format!("tape {} reader {}", r, x)); }
+            obs.count("spec-doc");
+            Some(format!("{}|{}|{}", r, show_lexed(&lex(&data)), show::text_tape(tape.tokens())))
         }
         ["x-derive", which, enc, h] => {
             let enc = Enc::parse(enc)?;
@@ -653,6 +695,7 @@ pub fn gen(g: &mut Gen) {
             let expect = value_of(enc, &ty, &doc);
             g.count(if expect.is_some() { "wf:with-expectation" } else { "wf:no-expectation" });
             emit_pair(g, enc, &ty, &data, expect.as_deref());
+            emit_spec(g, enc, &ty, &doc, expect.as_deref());
         }
     }
     // 2. documents with operators: Property capture (operators on any field, first fields included since the F9 repair)
@@ -673,6 +716,7 @@ pub fn gen(g: &mut Gen) {
         let expect = value_of(enc, &ty, &doc);
         g.count(if expect.is_some() { "ops:with-expectation" } else { "ops:no-expectation" });
         emit_pair(g, enc, &ty, &data, expect.as_deref());
+        emit_spec(g, enc, &ty, &doc, expect.as_deref());
     }
     // 3. malformed stream: mutations of rendered documents, random text; no expectation, correspondence only
     let n = g.budget(12_000, 120_000);
